@@ -459,3 +459,29 @@ _mask_case("join.PP.2d.cc", 2, [("P", True), ("P", True)], "join")
 _mask_case("join.PP.3d.cs", 3, [("P", True), ("P", False)], "join")
 _mask_case("meet.EE.3d.cc", 3, [("E", True), ("E", True)], "meet")
 _mask_case("join.PPP.3d.ccc", 3, [("P", True), ("P", True), ("P", True)], "join")
+
+
+def ll_collection_mixed(ctx, name):
+    """a collection of line pairs: pair 0 is coplanar by construction, pair 1 is arbitrary.  meet/join must raise
+    NotCoplanar as soon as ONE pair is skew (no silently wrong point/plane at the skew position)"""
+    geometer, ex = _g()
+    a, b, c, p, q, r, s_ = (ctx.vec(k, 4) for k in ("a", "b", "c", "p", "q", "r", "s"))
+    for rows in ([a, b], [a, c], [p, q], [r, s_]):
+        ctx.assume(ctx.neg(dependent(ctx, rows)))
+    mk = lambda x, y: np.array(geo.line3_from_points(tolist(x), tolist(y)), dtype=object if ctx.symbolic else None)
+    L = geometer.LineCollection(np.stack([mk(a, b), mk(p, q)]))
+    M = geometer.LineCollection(np.stack([mk(a, c), mk(r, s_)]))
+    skew1 = ctx.neg(ctx.zero(geo.det([tolist(v) for v in (p, q, r, s_)])))
+    op = getattr(geometer, name)
+    try:
+        with ctx.stubs():
+            op(L, M, _check_dependence=False)
+    except ex.NotCoplanar:
+        ctx.ensure("%s:raises-NotCoplanar-only-if-some-pair-is-skew" % name, skew1)
+        return
+    ctx.ensure("%s:returns-only-if-every-pair-is-coplanar" % name, ctx.neg(skew1))
+
+
+for _w in ("meet", "join"):
+    case("C02", "LL.collection.mixed.3d.%s" % _w, names("a", 4) + names("b", 4) + names("c", 4) + names("p", 4) + names("q", 4) + names("r", 4) + names("s", 4), mode="field",
+         functions=FUN, max_paths=1200, explore_time=600, assumptions=["collection shape (2,) enumerated"])(lambda ctx, _w=_w: ll_collection_mixed(ctx, _w))
